@@ -413,6 +413,13 @@ class Unit:
                 src_ty = subst_text(trait_args(im.trait), self.subst)
                 spec_impl = ('impl%s FromSpecImpl<%s> for %s {\n    open spec fn obeys_from_spec() -> bool { true }\n'
                              '    open spec fn from_spec(v: %s) -> %s { %s }\n}\n') % (g, src_ty, st, src_ty, st, c.spec)
+            if tn == 'PartialOrd' and f.name == 'partial_cmp' and c.spec is not None:
+                g = subst_text(impl_generics(im, self.subst), self.subst)
+                st = subst_text(im.selfty, self.subst)
+                rhs = subst_text(trait_args(im.trait), self.subst) or st
+                spec_impl = ('impl%s PartialOrdSpecImpl%s for %s {\n    open spec fn obeys_partial_cmp_spec() -> bool { true }\n'
+                             '    open spec fn partial_cmp_spec(&self, rhs: &%s) -> Option<Ordering> { %s }\n}\n') % (
+                                 g, '<' + rhs + '>' if trait_args(im.trait) else '', st, rhs, c.spec)
             if tn == 'PartialEq' and f.name == 'eq' and c.spec is not None:
                 g = subst_text(impl_generics(im, self.subst), self.subst)
                 st = subst_text(im.selfty, self.subst)
